@@ -19,6 +19,7 @@ package main
 
 import (
 	"fmt"
+	"go/constant"
 	"go/token"
 	"go/types"
 	"sort"
@@ -536,4 +537,210 @@ func c12PositionRecorded(w *World, r *Report) {
 		})
 	}
 	r.note("%s: %d Field constructions, %d diagnostics read their line from Field.Line", rule, len(allocs), n)
+}
+
+// */whole-input: everything the author wrote is parsed.
+//
+// ANTLR stops a start rule where it can no longer match; unless the rule ends in EOF (or the caller checks that the next token is
+// EOF) the rest of the input is dropped without a word: `packet A {..} garbage packet B {..}` formats to packet A alone - and
+// `format -f` writes that back over the file - and compiles to A's code with exit status 0. Decided per entry function that
+// calls a start-rule method of the generated parser:
+//   the grammar's start rule ends in EOF in every alternative, or
+//   between that call and every use of the tree (Accept) lies a comparison of the parser's current / look-ahead token type with
+//   antlr.TokenEOF (in the function or in a helper handed the parser) whose "not EOF" edge reaches the recording of a syntax error
+//   (an append to the listener's errors, AddSyntaxError, or a non-nil error return).
+func wholeInputRule(w *World, r *Report, prop string) {
+	rule := prop + "/whole-input"
+	ruleOf := map[string]*PRule{}
+	for _, pr := range w.G4.PRules {
+		ruleOf[title(pr.Name)] = pr
+	}
+	endsInEOF := func(pr *PRule) bool {
+		if len(pr.Alts) == 0 {
+			return false
+		}
+		for _, a := range pr.Alts {
+			if len(a.Elems) == 0 {
+				return false
+			}
+			last := a.Elems[len(a.Elems)-1]
+			if last.Kind != ekToken || last.Name != "EOF" || last.Suffix != 0 {
+				return false
+			}
+		}
+		return true
+	}
+	// functions that test the current token against EOF and record an error otherwise
+	isEOFConst := func(v ssa.Value) bool {
+		k, ok := v.(*ssa.Const)
+		if !ok || k.Value == nil {
+			return false
+		}
+		n, ok := constant.Int64Val(constant.ToInt(k.Value))
+		return ok && n == -1
+	}
+	tokenTypeOfCurrent := func(v ssa.Value) bool {
+		c, ok := stripIdentity(v).(*ssa.Call)
+		if !ok {
+			return false
+		}
+		name := ""
+		var recv ssa.Value
+		if c.Call.IsInvoke() {
+			name, recv = c.Call.Method.Name(), c.Call.Value
+		} else if f := c.Call.StaticCallee(); f != nil && len(c.Call.Args) > 0 {
+			name, recv = f.Name(), c.Call.Args[0]
+		}
+		switch name {
+		case "LA":
+			return true
+		case "GetTokenType":
+			if c2, ok := stripIdentity(recv).(*ssa.Call); ok {
+				n2 := ""
+				if c2.Call.IsInvoke() {
+					n2 = c2.Call.Method.Name()
+				} else if f := c2.Call.StaticCallee(); f != nil {
+					n2 = f.Name()
+				}
+				return n2 == "GetCurrentToken" || n2 == "LT"
+			}
+		}
+		return false
+	}
+	recordsError := func(fn *ssa.Function, from *ssa.BasicBlock) bool {
+		return blockReaches(from, func(ins ssa.Instruction) bool {
+			switch x := ins.(type) {
+			case ssa.CallInstruction:
+				if f := x.Common().StaticCallee(); f != nil {
+					if f.Name() == "SyntaxError" || f.Name() == "AddSyntaxError" || f.String() == "fmt.Errorf" || f.String() == "errors.New" {
+						return true
+					}
+				}
+				if x.Common().IsInvoke() && x.Common().Method.Name() == "SyntaxError" {
+					return true
+				}
+			case *ssa.Store:
+				if fa, ok := x.Addr.(*ssa.FieldAddr); ok {
+					if tn, f, _, _ := fieldOf(fa); tn == "SyntaxErrorListener" && f == "Errors" {
+						return true
+					}
+				}
+			}
+			return false
+		})
+	}
+	eofCheckIn := func(fn *ssa.Function) (ssa.Instruction, bool) {
+		var at ssa.Instruction
+		for _, b := range fn.Blocks {
+			cond := branchCond(b)
+			if cond == nil {
+				continue
+			}
+			val := true
+			for {
+				if u, ok := cond.(*ssa.UnOp); ok && u.Op == token.NOT {
+					cond, val = u.X, !val
+					continue
+				}
+				break
+			}
+			bo, ok := cond.(*ssa.BinOp)
+			if !ok || (bo.Op != token.EQL && bo.Op != token.NEQ) {
+				continue
+			}
+			var other ssa.Value
+			if isEOFConst(bo.X) {
+				other = bo.Y
+			} else if isEOFConst(bo.Y) {
+				other = bo.X
+			} else {
+				continue
+			}
+			if !tokenTypeOfCurrent(other) {
+				continue
+			}
+			// successor on which the token is NOT EOF
+			ne := 0
+			if (bo.Op == token.EQL) == val {
+				ne = 1
+			}
+			if recordsError(fn, b.Succs[ne]) {
+				at = b.Instrs[len(b.Instrs)-1]
+			}
+		}
+		return at, at != nil
+	}
+	n := 0
+	for _, fn := range w.srcFuncs {
+		if fn.Pkg != w.Parser {
+			continue
+		}
+		var starts []*ssa.Call
+		forEachInstr(fn, func(_ *ssa.BasicBlock, ins ssa.Instruction) {
+			c, ok := ins.(*ssa.Call)
+			if !ok {
+				return
+			}
+			f := c.Call.StaticCallee()
+			if f == nil || f.Pkg != w.Grammar || f.Signature.Recv() == nil || !strings.HasSuffix(types.TypeString(f.Signature.Recv().Type(), shortQual), "Parser") {
+				return
+			}
+			if ruleOf[f.Name()] != nil && f.Signature.Params().Len() == 0 {
+				starts = append(starts, c)
+			}
+		})
+		for _, sc := range starts {
+			n++
+			pr := ruleOf[sc.Call.StaticCallee().Name()]
+			key := fmt.Sprintf("%s: input left over after rule '%s' is a syntax error", fnKey(fn), pr.Name)
+			if endsInEOF(pr) {
+				r.pass(rule, key, w.instrPos(sc), "the grammar rule ends in EOF")
+				continue
+			}
+			// checks in fn itself or in helpers called after the start rule
+			var checks []ssa.Instruction
+			if at, ok := eofCheckIn(fn); ok {
+				checks = append(checks, at)
+			}
+			forEachInstr(fn, func(_ *ssa.BasicBlock, ins ssa.Instruction) {
+				c, ok := ins.(ssa.CallInstruction)
+				if !ok {
+					return
+				}
+				g := c.Common().StaticCallee()
+				if g == nil || g.Pkg != w.Parser || g.Blocks == nil {
+					return
+				}
+				if _, ok := eofCheckIn(g); ok {
+					checks = append(checks, ins)
+				}
+			})
+			var uses []ssa.Instruction
+			forEachInstr(fn, func(_ *ssa.BasicBlock, ins ssa.Instruction) {
+				if c, ok := ins.(ssa.CallInstruction); ok && c.Common().IsInvoke() && c.Common().Method.Name() == "Accept" {
+					uses = append(uses, ins)
+				}
+			})
+			ok := len(checks) > 0 && len(uses) > 0
+			for _, u := range uses {
+				covered := false
+				for _, c := range checks {
+					if instrDominates(sc, c) && instrDominates(c, u) {
+						covered = true
+					}
+				}
+				if !covered {
+					ok = false
+				}
+			}
+			if ok {
+				r.pass(rule, key, w.instrPos(sc), "the current token is compared with EOF before the tree is used")
+			} else {
+				r.fail(rule, key, w.instrPos(sc), fmt.Sprintf("grammar rule '%s' does not end in EOF and %s never checks that the parser stopped at the end of the input: whatever follows the last declaration the parser could match is silently dropped (formatting deletes it, compiling ignores it, exit status 0)", pr.Name, fn.Name()))
+			}
+		}
+	}
+	if n == 0 {
+		r.fail(rule, "start-rule calls found", "internal/parser", "no function of the parser package invokes a start rule of the generated parser")
+	}
 }
